@@ -77,6 +77,44 @@ Theorem C12_eip155_replay_protected :
 Proof. exact eip155_replay_protected. Qed.
 Print Assumptions C12_eip155_replay_protected.
 
+(* 3c. Chain ids are unbounded naturals in the model (the signing preimage carries be_of_N c, the chain
+       check compares the whole number): integer width never enters.  Two different chain ids - however
+       large, however congruent modulo 2^32 or 2^64 - never share a signing hash short of an H collision;
+       and a transaction carrying the fields signed for c1 that is attributed under the EIP-155 signer of
+       c2 <> c1 (V rewritten to c2's encoding or not) exhibits a signature on another hash, or a collision. *)
+Theorem C12_sighash_differs_across_chains :
+  forall (H : bytes -> bytes) (c1 c2 : N) (t : tx),
+    c1 <> c2 -> to_wf t ->
+    fits (sighash_item (EIP155 c1) t) = true -> fits (sighash_item (EIP155 c2) t) = true ->
+    sighash H (EIP155 c1) t = sighash H (EIP155 c2) t ->
+    collision H (encode (sighash_item (EIP155 c1) t)) (encode (sighash_item (EIP155 c2) t)).
+Proof. exact sighash_differs_across_chains. Qed.
+Print Assumptions C12_sighash_differs_across_chains.
+
+Theorem C12_cross_chain_replay :
+  forall H ecrecover (c1 c2 : N) (t1 t2 : tx) (a : bytes),
+    c1 <> c2 -> to_wf t1 -> to_wf t2 ->
+    fits (sighash_item (EIP155 c1) t1) = true -> fits (sighash_item (EIP155 c2) t2) = true ->
+    is_protected_v (t_v t2) = true ->
+    sender_signer H ecrecover (EIP155 c2) t2 = Ok a ->
+    (exists h r s v, h <> sighash H (EIP155 c1) t1 /\ recover_addr H ecrecover h r s v = Ok a) \/
+    collision H (encode (sighash_item (EIP155 c1) t1)) (encode (sighash_item (EIP155 c2) t2)).
+Proof. exact cross_chain_replay. Qed.
+Print Assumptions C12_cross_chain_replay.
+
+(* non-vacuity: for the recorded transaction, chain ids 61717561 and 2^64 + 61717561 give different
+   signing hashes (Keccak computed in Coq), and its V moved to the second chain's encoding is refused by
+   the first chain's signer and attributed to somebody else - not the recorded sender - by nobody here *)
+Example C12_wide_chain_example :
+  let c1 := 61717561 in let c2 := 18446744073709551616 + 61717561 in
+  bytes_eqb (sighash keccak256 (EIP155 c1) w_tx) (sighash keccak256 (EIP155 c2) w_tx) = false /\
+  fits (sighash_item (EIP155 c2) w_tx) = true /\
+  derive_chain_id (35 + 2 * c2 + 1) = c2 /\ is_protected_v (35 + 2 * c2 + 1) = true /\
+  sender_signer keccak256 (table_ecrecover w_table) (EIP155 c1)
+    (mkTx (t_nonce w_tx) (t_price w_tx) (t_gas w_tx) (t_to w_tx) (t_value w_tx) (t_data w_tx) (35 + 2 * c2 + 1) (t_r w_tx) (t_s w_tx))
+  = Err EChain.
+Proof. vm_compute. repeat split. Qed.
+
 (* 4. Signature ranges. *)
 Theorem C12_validate_spec :
   forall v r s (hs : bool),
